@@ -80,18 +80,17 @@ FinalBreak(raw) ==
     IF raw = <<>> \/ ~IsNl(raw[Len(raw)]) THEN 0
     ELSE IF SecondHalf(raw, Len(raw)) THEN Len(raw) - 1 ELSE Len(raw)
 
-\* indices of raw that survive normalisation; keep = keep_trailing_newline
-KeptIdx(raw, keep) ==
-    {i \in 1..Len(raw) : ~SecondHalf(raw, i) /\ (keep \/ i # FinalBreak(raw))}
+\* index i of raw survives normalisation; keep = keep_trailing_newline
+Kept(raw, i, keep) == ~SecondHalf(raw, i) /\ (keep \/ i # FinalBreak(raw))
 
 RECURSIVE NormFrom(_, _, _)
-NormFrom(raw, i, kept) ==
+NormFrom(raw, i, keep) ==
     IF i > Len(raw) THEN <<>>
-    ELSE (IF i \in kept THEN <<IF raw[i] = "r" THEN "n" ELSE raw[i]>> ELSE <<>>)
-         \o NormFrom(raw, i + 1, kept)
+    ELSE (IF Kept(raw, i, keep) THEN <<IF raw[i] = "r" THEN "n" ELSE raw[i]>> ELSE <<>>)
+         \o NormFrom(raw, i + 1, keep)
 
 \* every line break becomes one "n"; one final break dropped unless keep
-Norm(raw, keep) == NormFrom(raw, 1, KeptIdx(raw, keep))
+Norm(raw, keep) == NormFrom(raw, 1, keep)
 
 \* replace each "n" of a normalised text by the newline sequence nl
 RECURSIVE WithNl(_, _)
